@@ -57,6 +57,15 @@ def kernels(kH, kW, fill):
         k[-1, -1] = 0.0  # asymmetric support
     out["asym_int"] = k / 8.0
     out["ramp"] = (np.arange(1, kH * kW + 1, dtype=float).reshape(kH, kW)) / 16.0
+    if kW == 2 or kH == 2:
+        # two nearly equal taps: the transfer function almost vanishes at the Nyquist frequency of an even-length axis
+        # (invertible blur, cond(A) ~ 2.6e5), zeros elsewhere
+        k2 = np.zeros((kH, kW))
+        if kW == 2:
+            k2[0, 0], k2[0, 1] = 0.5 + 2.0 ** -19, 0.5 - 2.0 ** -19
+        else:
+            k2[0, 0], k2[1, 0] = 0.5 + 2.0 ** -19, 0.5 - 2.0 ** -19
+        out["nearcancel"] = k2
     return out
 
 
@@ -189,10 +198,19 @@ def run_case(case, seed):
                 fails.append(fail("blur!=definition", f"kernel {nm}: image in memory layout {lay}", layout=lay, **t2))
         Hhat = np.fft.fft2(A[:, 0].reshape(H, W))
         lams = list(LAMS) + ([0.0] if np.min(np.abs(Hhat)) > 1e-3 else [])
+        if nm == "nearcancel":
+            lams = [2.0 ** -10, 2.0 ** -40] + ([0.0] if np.min(np.abs(Hhat)) > 1e-7 else [])
         for lam in lams:
             T = A.T @ A + lam * np.eye(N)
-            ref = np.stack([np.linalg.solve(T, A.T @ B[..., c].reshape(-1)).reshape(H, W) for c in range(4)], axis=-1)
-            tol = 1e-9 * max(1.0, np.max(np.abs(ref))) * max(1.0, np.linalg.cond(T) * 1e-6)
+            if nm == "nearcancel":
+                # reference through the SVD of A itself (accuracy u cond(A), not u cond(A)^2): x = V diag(s/(s^2+lam)) U^T b
+                Us, ss, Vts = np.linalg.svd(A)
+                filt = ss / (ss * ss + lam)
+                ref = np.stack([(Vts.T @ (filt * (Us.T @ B[..., c].reshape(-1)))).reshape(H, W) for c in range(4)], axis=-1)
+                tol = 1e-4 * max(1.0, np.max(np.abs(ref)))
+            else:
+                ref = np.stack([np.linalg.solve(T, A.T @ B[..., c].reshape(-1)).reshape(H, W) for c in range(4)], axis=-1)
+                tol = 1e-9 * max(1.0, np.max(np.abs(ref))) * max(1.0, np.linalg.cond(T) * 1e-6)
             nontriv += 1
             ok, Xf = call(q.qslst_restore_fft, B, psf, lam)
             evals += 1
